@@ -1,19 +1,21 @@
 import FiberModel.C15.Sim
 /-
-C15 — the domain of the oracle, syntactically: a history in which no Store-API request calls `store.Get`
-twice and no script calls `Save` after `Destroy` never makes the oracle answer `outside-domain`.
-(Pure facts about Spec.lean; the model is not involved.)
+C15 — the domain of the oracle, syntactically: a history in which no script calls `Save` after `Destroy`
+never makes the oracle answer `outside-domain` (any number of `store.Get` per request is inside).
+The facts about `Flags` are pure facts about Spec.lean; the model is not involved.
 -/
 namespace C15
 open B
 
-/-- what the flags `l`, `d` over-approximate -/
-structure Flags (r : SReq) (l d : Bool) : Prop where
-  loaded : r.loaded = true → l = true
+/-- what the flag `d` over-approximates: some view of the request is a destroyed one -/
+structure Flags (r : SReq) (d : Bool) : Prop where
   mw : ∀ v, r.mw = some v → v.destroyed = true → d = true
   cur : ∀ v, r.cur = .other v → v.destroyed = true → d = true
 
-theorem Flags.view {r : SReq} {l d : Bool} (h : Flags r l d) {v : View} (hv : r.view = some v)
+theorem Flags.congr {r r' : SReq} {d : Bool} (h : Flags r d) (h1 : r'.mw = r.mw) (h2 : r'.cur = r.cur) :
+    Flags r' d := ⟨by rw [h1]; exact h.mw, by rw [h2]; exact h.cur⟩
+
+theorem Flags.view {r : SReq} {d : Bool} (h : Flags r d) {v : View} (hv : r.view = some v)
     (hd : v.destroyed = true) : d = true := by
   unfold SReq.view at hv
   split at hv
@@ -24,19 +26,25 @@ theorem Flags.view {r : SReq} {l d : Bool} (h : Flags r l d) {v : View} (hv : r.
     subst hv
     exact h.cur _ hc hd
 
-theorem Flags.putView {r : SReq} {l d : Bool} (h : Flags r l d) {v : View} (hv : v.destroyed = true → d = true) :
-    Flags (r.putView v) l d := by
+theorem Flags.putView {r : SReq} {d : Bool} (h : Flags r d) {v : View} (hv : v.destroyed = true → d = true) :
+    Flags (r.putView v) d := by
   unfold SReq.putView
   split
   · exact h
-  · refine ⟨h.loaded, ?_, ?_⟩
+  · refine ⟨?_, ?_⟩
     · intro v' hv' hd'; simp only [Option.some.injEq] at hv'; subst hv'; exact hv hd'
     · intro v' hv' hd'; rename_i hc; simp only at hv'; rw [hc] at hv'; cases hv'
-  · refine ⟨h.loaded, h.mw, ?_⟩
+  · refine ⟨h.mw, ?_⟩
     intro v' hv' hd'; simp only [SCur.other.injEq] at hv'; subst hv'; exact hv hd'
 
+theorem Flags.ite_mwDestroyed {X : SReq} {d : Bool} {c : Prop} [Decidable c] (h : Flags X d) :
+    Flags (if c then { X with mwDestroyed := true } else X) d := by
+  split
+  · exact ⟨h.mw, h.cur⟩
+  · exact h
+
 theorem freshView_fields {cfg : Cfg} {r r1 : SReq} {nv : View} (h : freshView cfg r = .ok (r1, nv)) :
-    r1.mw = r.mw ∧ r1.cur = r.cur ∧ r1.loaded = r.loaded ∧ nv.destroyed = false := by
+    r1.mw = r.mw ∧ r1.cur = r.cur ∧ nv.destroyed = false := by
   unfold freshView at h
   split at h
   · cases h
@@ -47,28 +55,48 @@ theorem freshView_fields {cfg : Cfg} {r r1 : SReq} {nv : View} (h : freshView cf
       · simp only [Except.ok.injEq, Prod.mk.injEq] at h
         obtain ⟨h1, h2⟩ := h
         subst h1 h2
-        exact ⟨rfl, rfl, rfl, rfl⟩
+        exact ⟨rfl, rfl, rfl⟩
 
-theorem loadView_fields {cfg : Cfg} {r r1 : SReq} {p : Bytes} {v : View} (h : loadView cfg r p = .ok (r1, v)) :
-    r1.mw = r.mw ∧ r1.cur = r.cur ∧ r1.loaded = r.loaded ∧ v.destroyed = false := by
+theorem loadView_fields {cfg : Cfg} {r r1 : SReq} {v : View} (h : loadView cfg r = .ok (r1, v)) :
+    r1.mw = r.mw ∧ r1.cur = r.cur ∧ v.destroyed = false := by
   unfold loadView at h
+  simp only at h
   split at h
   · split at h
     · simp only [Except.ok.injEq, Prod.mk.injEq] at h
       obtain ⟨h1, h2⟩ := h
       subst h1 h2
-      exact ⟨rfl, rfl, rfl, rfl⟩
-    · have := freshView_fields h
-      exact this
-  · exact freshView_fields h
+      exact ⟨rfl, rfl, rfl⟩
+    · split at h
+      · cases hf : freshView cfg { r with s := { r.s with sessions := erase r.s.sessions (r.lookupId cfg) },
+                                          pres := withdraw cfg r.pres } with
+        | error e => simp [hf, bind, Except.bind] at h
+        | ok p =>
+          obtain ⟨h1, h2, h3⟩ := freshView_fields hf
+          simp only [hf, bind, Except.bind, pure, Except.pure, Except.ok.injEq, Prod.mk.injEq] at h
+          obtain ⟨e1, e2⟩ := h
+          subst e1 e2
+          exact ⟨h1, h2, h3⟩
+      · cases hf : freshView cfg { r with s := { r.s with sessions := erase r.s.sessions (r.lookupId cfg) } } with
+        | error e => simp [hf, bind, Except.bind] at h
+        | ok p =>
+          obtain ⟨h1, h2, h3⟩ := freshView_fields hf
+          simp only [hf, bind, Except.bind, pure, Except.pure, Except.ok.injEq, Prod.mk.injEq] at h
+          obtain ⟨e1, e2⟩ := h
+          subst e1 e2
+          exact ⟨h1, h2, h3⟩
+  · cases hf : freshView cfg r with
+    | error e => simp [hf, bind, Except.bind] at h
+    | ok p =>
+      obtain ⟨h1, h2, h3⟩ := freshView_fields hf
+      simp only [hf, bind, Except.bind, pure, Except.pure, Except.ok.injEq, Prod.mk.injEq] at h
+      obtain ⟨e1, e2⟩ := h
+      subst e1 e2
+      exact ⟨h1, h2, h3⟩
 
-theorem Flags.set_s {r : SReq} {l d : Bool} (h : Flags r l d) (s' : SpecSt) : Flags { r with s := s' } l d :=
-  ⟨h.loaded, h.mw, h.cur⟩
-
-/-- the flags stay an over-approximation across every accepted action -/
-theorem specAct_flags {cfg : Cfg} {viaMw : Bool} {q : Req} {r r' : SReq} {a : Act} {o : AObs} {l d : Bool}
-    (hf : Flags r l d) (h : specAct cfg viaMw q r a o = .ok r') :
-    Flags r' (nextL viaMw l a) (nextD d a) := by
+/-- the flag stays an over-approximation across every accepted action -/
+theorem specAct_flags {cfg : Cfg} {viaMw : Bool} {q : Req} {r r' : SReq} {a : Act} {o : AObs} {d : Bool}
+    (hf : Flags r d) (h : specAct cfg viaMw q r a o = .ok r') : Flags r' (nextD d a) := by
   cases a with
   | storeGet =>
     simp only [specAct] at h
@@ -76,36 +104,34 @@ theorem specAct_flags {cfg : Cfg} {viaMw : Bool} {q : Req} {r r' : SReq} {a : Ac
     | true =>
       simp only [hv, if_true] at h
       split at h
-      · cases h; simpa [nextL, nextD] using hf
+      · cases h; exact hf
       · cases h
     | false =>
       simp only [hv, Bool.false_eq_true, if_false] at h
-      split at h
-      · cases h
-      · cases hl : loadView cfg r (presentedId cfg q) with
-        | error e => simp [hl, bind, Except.bind] at h
-        | ok p =>
-          obtain ⟨r1, v⟩ := p
-          obtain ⟨h1, h2, h3, h4⟩ := loadView_fields hl
-          simp only [hl, bind, Except.bind] at h
-          split at h
-          · simp [throw, throwThe, MonadExceptOf.throw] at h
-          · simp only [pure, Except.pure, Except.ok.injEq] at h
-            subst h
-            refine ⟨by intro _; simp [nextL], ?_, ?_⟩
-            · intro v' hv' hd'; simp only at hv'; rw [h1] at hv'; simpa [nextD] using hf.mw v' hv' hd'
-            · intro v' hv' hd'; simp only [SCur.other.injEq] at hv'; subst hv'; rw [h4] at hd'; cases hd'
+      cases hl : loadView cfg r with
+      | error e => simp [hl, bind, Except.bind] at h
+      | ok p =>
+        obtain ⟨r1, v⟩ := p
+        obtain ⟨h1, h2, h4⟩ := loadView_fields hl
+        simp only [hl, bind, Except.bind] at h
+        split at h
+        · simp [throw, throwThe, MonadExceptOf.throw] at h
+        · simp only [pure, Except.pure, Except.ok.injEq] at h
+          subst h
+          refine ⟨?_, ?_⟩
+          · intro v' hv' hd'; simp only at hv'; rw [h1] at hv'; exact hf.mw v' hv' hd'
+          · intro v' hv' hd'; simp only [SCur.other.injEq] at hv'; subst hv'; rw [h4] at hd'; cases hd'
   | byID id =>
     simp only [specAct] at h
     split at h
     · split at h
       · split at h
         · cases h
-          refine ⟨hf.loaded, hf.mw, ?_⟩
+          refine ⟨hf.mw, ?_⟩
           intro v' hv' hd'; simp only [SCur.other.injEq] at hv'; subst hv'; cases hd'
         · cases h
       · split at h
-        · cases h; exact hf.set_s _
+        · cases h; exact hf.congr rfl rfl
         · cases h
     · by_cases ho : o = .err (if id = [] then .empty else .notFound)
       · rw [if_pos ho] at h; cases h; exact hf
@@ -116,10 +142,10 @@ theorem specAct_flags {cfg : Cfg} {viaMw : Bool} {q : Req} {r r' : SReq} {a : Ac
     · split at h
       · cases h; exact hf
       · cases h
-    · cases h; exact hf.set_s _
+    · cases h; exact hf.congr rfl rfl
   | storeReset =>
     simp only [specAct] at h
-    cases h; exact hf.set_s _
+    cases h; exact hf.congr rfl rfl
   | info =>
     simp only [specAct] at h
     split at h
@@ -184,15 +210,14 @@ theorem specAct_flags {cfg : Cfg} {viaMw : Bool} {q : Req} {r r' : SReq} {a : Ac
     simp only [specAct] at h
     split at h
     · split at h
-      · cases h; exact ⟨hf.loaded, fun v hv hd => rfl, fun v hv hd => rfl⟩
+      · cases h; exact ⟨fun v hv hd => rfl, fun v hv hd => rfl⟩
       · cases h
     · rename_i v0 hv0
-      have hp : Flags (({ r with s := { r.s with sessions := erase r.s.sessions v0.id } } : SReq).putView
-          { v0 with data := [], destroyed := true }) l true :=
-        (Flags.set_s (l := l) (d := true) ⟨hf.loaded, fun v hv hd => rfl, fun v hv hd => rfl⟩ _).putView (fun _ => rfl)
-      split at h
-      · cases h; exact ⟨hp.loaded, hp.mw, hp.cur⟩
-      · cases h; exact hp
+      have hp : Flags ((dropR cfg r v0).putView { v0 with data := [], destroyed := true }) true :=
+        Flags.putView (r := dropR cfg r v0) ⟨fun v hv hd => rfl, fun v hv hd => rfl⟩ (fun _ => rfl)
+      simp only [Except.ok.injEq] at h
+      subst h
+      exact Flags.ite_mwDestroyed hp
   | regenerate =>
     simp only [specAct] at h
     split at h
@@ -204,11 +229,10 @@ theorem specAct_flags {cfg : Cfg} {viaMw : Bool} {q : Req} {r r' : SReq} {a : Ac
       | error e => simp [hfv, bind, Except.bind] at h
       | ok p =>
         obtain ⟨r1, nv⟩ := p
-        obtain ⟨h1, h2, h3, h4⟩ := freshView_fields hfv
+        obtain ⟨h1, h2, h4⟩ := freshView_fields hfv
         simp only [hfv, bind, Except.bind, pure, Except.pure, Except.ok.injEq] at h
         subst h
-        have hf1 : Flags r1 l d := ⟨by rw [h3]; exact hf.loaded, by rw [h1]; exact hf.mw, by rw [h2]; exact hf.cur⟩
-        exact hf1.putView (fun hd => hf.view hv0 hd)
+        exact (hf.congr h1 h2).putView (fun hd => hf.view hv0 hd)
   | reset =>
     simp only [specAct] at h
     split at h
@@ -216,15 +240,15 @@ theorem specAct_flags {cfg : Cfg} {viaMw : Bool} {q : Req} {r r' : SReq} {a : Ac
       · cases h; exact hf
       · cases h
     · rename_i v0 hv0
-      cases hfv : freshView cfg { r with s := { r.s with sessions := erase r.s.sessions v0.id } } with
-      | error e => simp [hfv, bind, Except.bind] at h
+      cases hfv : freshView cfg (dropR cfg r v0) with
+      | error e => simp [dropR] at hfv; simp [hfv, bind, Except.bind] at h
       | ok p =>
         obtain ⟨r1, nv⟩ := p
-        obtain ⟨h1, h2, h3, h4⟩ := freshView_fields hfv
+        obtain ⟨h1, h2, h4⟩ := freshView_fields hfv
+        simp only [dropR] at hfv
         simp only [hfv, bind, Except.bind, pure, Except.pure, Except.ok.injEq] at h
         subst h
-        have hf1 : Flags r1 l d := ⟨by rw [h3]; exact hf.loaded, by rw [h1]; exact hf.mw, by rw [h2]; exact hf.cur⟩
-        exact hf1.putView (fun hd => by rw [h4] at hd; cases hd)
+        exact (hf.congr h1 h2).putView (fun hd => by simp only at hd; rw [h4] at hd; cases hd)
   | save =>
     simp only [specAct] at h
     split at h
@@ -237,7 +261,7 @@ theorem specAct_flags {cfg : Cfg} {viaMw : Bool} {q : Req} {r r' : SReq} {a : Ac
       · split at h
         · cases h
         · cases h
-          exact (hf.set_s _).putView (fun hd => hf.view hv0 hd)
+          exact (hf.congr (r' := savedR cfg r v0) rfl rfl).putView (fun hd => hf.view hv0 hd)
   | release =>
     simp only [specAct] at h
     split at h
@@ -247,67 +271,61 @@ theorem specAct_flags {cfg : Cfg} {viaMw : Bool} {q : Req} {r r' : SReq} {a : Ac
     · split at h
       · cases h; exact hf
       · cases h
-        exact ⟨hf.loaded, hf.mw, by intro v hv; cases hv⟩
+        exact ⟨hf.mw, by intro v hv; cases hv⟩
 
 theorem specStart_fields {cfg : Cfg} {s : SpecSt} {q : Req} {g : List Bytes} {r0 : SReq}
-    (h : specStart cfg s q g = .ok r0) : Flags r0 false false := by
+    (h : specStart cfg s q g = .ok r0) : Flags r0 false := by
   unfold specStart at h
   split at h
-  · cases hl : loadView cfg { s := s, gens := g } (presentedId cfg q) with
+  · cases hl : loadView cfg { s := s, gens := g, pres := q.pres } with
     | error e => simp [hl, bind, Except.bind] at h
     | ok p =>
       obtain ⟨r1, v⟩ := p
-      obtain ⟨h1, h2, h3, h4⟩ := loadView_fields hl
+      obtain ⟨h1, h2, h4⟩ := loadView_fields hl
       simp only [hl, bind, Except.bind, pure, Except.pure, Except.ok.injEq] at h
       subst h
-      refine ⟨?_, ?_, ?_⟩
-      · intro hc; simp only at hc; rw [h3] at hc; cases hc
+      refine ⟨?_, ?_⟩
       · intro v' hv' hd'; simp only [Option.some.injEq] at hv'; subst hv'; rw [h4] at hd'; cases hd'
       · intro v' hv'; cases hv'
   · simp only [pure, Except.pure, Except.ok.injEq] at h
     subst h
-    exact ⟨(by intro hc; cases hc), (by intro v hv; cases hv), (by intro v hv; cases hv)⟩
+    exact ⟨(by intro v hv; cases hv), (by intro v hv; cases hv)⟩
 
 /-- within the domain the oracle accepts every script of the model outright -/
 theorem script_sim_dom {cfg : Cfg} {gen : Nat → Bytes} (hw : WF cfg gen) {q : Req} (as : List Act) :
-    ∀ (h : HSt) (r : SReq) (G G' : List Bytes) (l d : Bool), Rel cfg gen G q h r → Flags r l d →
-      scriptInDomain q.viaMw l d as = true →
+    ∀ (h : HSt) (r : SReq) (G G' : List Bytes) (d : Bool), Rel cfg gen G q h r → Flags r d →
+      scriptInDomain d as = true →
       G = gensBetween gen h.c.st.nid (runScript cfg gen h as).1.c.st.nid ++ G' →
       ∃ r', specScript cfg q.viaMw q r as (runScript cfg gen h as).2 = .ok r' ∧
-        Rel cfg gen G' q (runScript cfg gen h as).1 r' ∧
-        Flags r' (as.foldl (nextL q.viaMw) l) (as.foldl nextD d) := by
+        Rel cfg gen G' q (runScript cfg gen h as).1 r' := by
   induction as with
   | nil =>
-    intro h r G G' l d hrel hf _ hG
+    intro h r G G' d hrel _ _ hG
     have : G = G' := by simpa [runScript, gensBetween_self] using hG
     subst this
-    exact ⟨r, rfl, hrel, hf⟩
+    exact ⟨r, rfl, hrel⟩
   | cons a as ih =>
-    intro h r G G' l d hrel hf hdom hG
+    intro h r G G' d hrel hf hdom hG
     simp only [scriptInDomain, Bool.and_eq_true] at hdom
     simp only [runScript] at hG
     have hinv1 := act_inv cfg hrel.hinv a
     have hmono := (runScript_inv cfg as hinv1.1).2
     rw [gensBetween_append gen hinv1.2 hmono, List.append_assoc] at hG
     rcases act_sim hw hrel a hG with ⟨r1, hs1, hrel1⟩ | ⟨e, he, _, ht⟩
-    · obtain ⟨r2, hs2, hrel2, hf2⟩ := ih _ r1 _ G' _ _ hrel1 (specAct_flags hf hs1) hdom.2 rfl
-      refine ⟨r2, ?_, ?_, ?_⟩
+    · obtain ⟨r2, hs2, hrel2⟩ := ih _ r1 _ G' _ hrel1 (specAct_flags hf hs1) hdom.2 rfl
+      refine ⟨r2, ?_, ?_⟩
       · simp only [runScript, specScript, hs1, bind, Except.bind]
         exact hs2
       · simpa [runScript] using hrel2
-      · simpa [List.foldl] using hf2
     · exfalso
-      rcases ht with ⟨ha, hv, hl⟩ | ⟨ha, v, hv, hd⟩
-      · subst ha
-        have := hf.loaded hl
-        simp [actAllowed, hv, this] at hdom
-      · subst ha
-        have := hf.view hv hd
-        simp [actAllowed, this] at hdom
+      obtain ⟨ha, v, hv, hd⟩ := ht
+      subst ha
+      have := hf.view hv hd
+      simp [actAllowed, this] at hdom
 
 /-- … every request -/
 theorem req_sim_dom {cfg : Cfg} {gen : Nat → Bytes} (hw : WF cfg gen) {st : St} {s : SpecSt}
-    (hst : StRel cfg gen st s) (q : Req) (hdom : scriptInDomain q.viaMw false false q.script = true) :
+    (hst : StRel cfg gen st s) (q : Req) (hdom : scriptInDomain false q.script = true) :
     ∃ s', specReq cfg s q (handle cfg gen st q).2.toObs = .ok s' ∧ StRel cfg gen (handle cfg gen st q).1 s' := by
   have h0 := startReq_hinv cfg hst.inv q
   have h1 := runScript_inv cfg q.script h0.1
@@ -324,7 +342,7 @@ theorem req_sim_dom {cfg : Cfg} {gen : Nat → Bytes} (hw : WF cfg gen) {st : St
   have ha : (handle cfg gen st q).2.toObs.acts = (runScript cfg gen (startReq cfg gen st q) q.script).2 := rfl
   have hstat : (handle cfg gen st q).2.toObs.status = 200 := rfl
   have hfst : (handle cfg gen st q).1 = (endCtx cfg q (runScript cfg gen (startReq cfg gen st q) q.script).1).st := rfl
-  obtain ⟨r1, hs1, hrel1, _⟩ := script_sim_dom hw q.script _ r0 _ [] _ _ hrel0 (specStart_fields hs0) hdom rfl
+  obtain ⟨r1, hs1, hrel1⟩ := script_sim_dom hw q.script _ r0 _ [] _ hrel0 (specStart_fields hs0) hdom rfl
   obtain ⟨r2, hs2, hst2, hout2⟩ := finish_sim hw hrel1 (handle cfg gen st q).2.toObs rfl rfl
   have he := end_sim hst2 hout2 (handle cfg gen st q).2.toObs rfl rfl rfl
   refine ⟨r2.s, ?_, by rw [hfst]; exact hst2⟩
